@@ -5,7 +5,8 @@ import re
 import proto
 
 IPS4 = ["1.2.3.4", "10.0.0.1", "192.168.7.9", "127.0.0.1", "200.1.2.3", "8.8.8.8", "128.0.0.1", "255.255.255.254"]
-IPS6 = ["2001:db8::1", "2001:db8:0:1::5", "fe80::1:2:3:4", "0::1", "1:2:3:4:5:6:7:8", "2001:db8::a:0:0:1", "ff02::fb", "1::"]
+IPS6 = ["2001:db8::1", "2001:db8:0:1::5", "fe80::1:2:3:4", "0::1", "1:2:3:4:5:6:7:8", "2001:db8::a:0:0:1", "ff02::fb", "1::",
+        "2001:DB8::A", "FE80::1:2:3:4", "ABCD:EF01:2345:6789:abcd:ef01:2345:6789"]
 
 MODESTR = ["+x", "+!", "-x", "-!", "+x!", "+!x", "+", "-", "+x-x", "+!-!", "-!+!", "++x", "+x+!", "-x-!", "+!!"]
 ACCTS = ["alice", "Bob", "c-3", "acct_with_a_rather_long_name", "x"]
@@ -116,6 +117,9 @@ def reply_text(rng, kind):
     if kind == "OKspace":
         # "OK" followed by a space but no account before the next space: vouches no account
         return rng.choice(["OK ", "OK  alice", "OK  ", "OK  alice:123 x"])
+    if kind in ("NO", "AGAIN", "MORE") and rng.random() < 0.03:
+        # the verb, the separating blank and an empty text: still a refusal / retry / challenge (with nothing to say)
+        return kind + " "
     if kind in ("NO", "AGAIN", "MORE") and rng.random() < 0.04:
         # a text that does not fit the daemon's output line: it may be cut, but the line must still end
         return kind + " " + "".join(rng.choice("abcdefghij klmnop%:") for _ in range(rng.choice([990, 1010, 1024, 1100, 2000]))).strip()
@@ -262,6 +266,11 @@ class RandomHistory(object):
         if cat == "stats":
             return {"t": "stats"}
         if cat == "noise":
+            waiting = [(c, sv) for c in openids for sv in sorted(s.open[c]["awaiting"]) if s.open[c]["tag"]]
+            if waiting and r.random() < 0.4:
+                # a reply / unlinked notice that lacks its text parameter is not a reply: nothing is answered by it
+                c, sv = r.choice(waiting)
+                return {"t": "noise", "line": "-1 %s %s %s" % (r.choice("Xx"), sv, s.open[c]["tag"])}
             if openids and r.random() < 0.5:
                 # an announcement that lacks parameters is not an announcement: a live client of that id is not touched by it
                 cid = r.choice(openids)
